@@ -151,7 +151,7 @@ func runC04(c *Ctx) {
 	c04Exemptions(c, t)
 	c04AllNames(c)
 	// (4) previous-driven adapters
-	c.Rule("ADAPTERS-UNFILTERED", "no pair adapter filters the pairs it hands to its rules by a property of the elements", 8)
+	c.Rule("ADAPTERS-UNFILTERED", "no pair adapter filters the pairs it hands to its rules by a property of the elements", 6)
 	pkU := p.Pkg(pkgCheckUtil)
 	l := newLabeler(p, checkPkgs(p))
 	l.Run(seedHandlerParams(l, t))
